@@ -37,10 +37,13 @@ TNext ==
      /\ subs' = {} /\ conn' = <<>> /\ sess' = <<>> /\ owed' = <<>> /\ gowed' = {}
      /\ ctl' = <<>> /\ ret' = <<>> /\ unack' = <<>> /\ infl' = <<>> /\ last' = <<>>
      /\ ctr' = [pub |-> 0, oid |-> 0]
-     /\ aux' = [wills |-> <<>>, reg |-> <<>>, closedc |-> {}, srvended |-> {}]
+     /\ aux' = [wills |-> <<>>, reg |-> <<>>, closedc |-> {}, srvended |-> {}, sockc |-> {}, nreg |-> 0]
   \/ Is("connect")     /\ Connect(ev.k, ev.cid, ev.ver, ev.clean, ev.recvmax, ev.expiry, [maxpkt |-> ev.maxpkt, aliasmax |-> ev.aliasmax],
                                    IF ev.haswill THEN [has |-> TRUE] @@ ev.will ELSE NoWill, ev.conn, ev.ms)
-  \/ Is("connack")     /\ \/ Connack(ev.k, ev.sp, ev.code, ev.ms)
+  \/ Is("connack")     /\ \/ /\ Connack(ev.k, ev.sp, ev.code, ev.ms)
+                             \* C05: every acknowledged older connection with this client id had been closed (its end was
+                             \* readable) when this CONNACK was read
+                             /\ "olderopen" \in DOMAIN ev => ev.olderopen = <<>>
                           \/ ConnackFail(ev.k, ev.code)
   \/ Is("subscribe")   /\ Subscribe(ev.k, ev.pid, ev.subid, ev.subs)
   \/ Is("suback")      /\ Suback(ev.k, ev.pid, ev.codes)
@@ -67,8 +70,9 @@ TNext ==
   \/ Is("hook")        /\ \/ ev.h = "register"   /\ HookRegister(ev.cid, ev.conn, ev.resume, ev.ms)
                           \/ ev.h = "unregister" /\ HookUnregister(ev.cid, ev.conn, ev.ms)
                           \/ ev.h = "closed"     /\ HookClosed(ev.conn)
+                          \/ ev.h = "exit.write" /\ HookSockClosed(ev.conn)
                           \/ ev.h = "will"       /\ WillFire(ev.cid, ev.topic, ev.ms)
-                          \/ ev.h \notin {"register", "unregister", "closed", "will"} /\ UNCHANGED bvars
+                          \/ ev.h \notin {"register", "unregister", "closed", "will", "exit.write"} /\ UNCHANGED bvars
   \/ Is("srvdisconnect") /\ SrvDisconnect(ev.k, ev.code)
   \/ Is("quiet")       /\ Quiet(ev.ms)
   \/ Is("dropped")     /\ Dropped(ev.cid, ev.tag, ev.reason, ev.ms)
